@@ -155,7 +155,7 @@ func c20Message(i int, size int, rnd *rand.Rand) (*Message, []byte) {
 type c20Config struct {
 	Target     string `json:"target"`      // client | backend
 	Inbound    string `json:"inbound"`     // absent | healthy | fail@k | fail@k-partial
-	Reconnect  string `json:"reconnect"`   // absent | fresh | stale-once | refusing | accept-reset
+	Reconnect  string `json:"reconnect"`   // absent | fresh | stale-once | refusing | accept-reset | accept-closed
 	Messages   int    `json:"messages"`
 	Size       int    `json:"message_size"`
 	inFailAt   int
@@ -182,6 +182,12 @@ func c20Run(cfg c20Config, rnd *rand.Rand) (why string, detail map[string]any) {
 	case "accept-reset":
 		sink, _ = newC20Sink("reset")
 		port = sink.port()
+	case "accept-closed":
+		// the destination accepts and resets, and the reset is noticed (by what the proxy starts on
+		// every new connection) before the message is written: the new connection is already
+		// closed on the proxy's side when the write comes. Deterministic: every write fails.
+		sink, _ = newC20Sink("healthy")
+		port = sink.port()
 	case "refusing":
 		port = c20FreePort()
 	}
@@ -190,7 +196,14 @@ func c20Run(cfg c20Config, rnd *rand.Rand) (why string, detail map[string]any) {
 	}
 	established := 0
 	var estMu sync.Mutex
-	onEst := func(c net.Conn) { estMu.Lock(); established++; estMu.Unlock() }
+	onEst := func(c net.Conn) {
+		estMu.Lock()
+		established++
+		estMu.Unlock()
+		if cfg.Reconnect == "accept-closed" {
+			c.Close()
+		}
+	}
 	var send func(m *Message) error
 	if cfg.Target == "client" {
 		var primary, secondary ClientTransport
@@ -360,7 +373,7 @@ func c20Run(cfg c20Config, rnd *rand.Rand) (why string, detail map[string]any) {
 
 func TestVerifC20(t *testing.T) {
 	run := ev.New("C20", "fault_enumeration",
-		"every fault pattern {cached connection: absent, healthy, failing on write k (clean or after a partial write)} x {reconnectable path: absent, fresh, stale-once, refusing, accept-then-reset} x 1-3 messages x message sizes, "+
+		"every fault pattern {cached connection: absent, healthy, failing on write k (clean or after a partial write)} x {reconnectable path: absent, fresh, stale-once, refusing, accept-then-reset, accepted-but-closed-before-the-write} x 1-3 messages x message sizes, "+
 			"for FailOverClientTransport over TCPClientTransport and for TCPBackend; sinks (scripted conns, real loopback listeners) record every byte; distinct = distinct fault patterns")
 	rnd := rand.New(rand.NewSource(run.Seed))
 	sizes := []int{0, 300, 70000}
@@ -382,7 +395,7 @@ func TestVerifC20(t *testing.T) {
 	for rep := 0; rep < reps; rep++ {
 		for _, target := range []string{"client", "backend"} {
 			for _, in := range inbs {
-				for _, rc := range []string{"absent", "fresh", "stale-once", "refusing", "accept-reset"} {
+				for _, rc := range []string{"absent", "fresh", "stale-once", "refusing", "accept-reset", "accept-closed"} {
 					if target == "backend" && (rc == "absent" || rc == "stale-once") {
 						continue // a TCP backend always has a dial target; its stale connection is the cached one
 					}
